@@ -72,6 +72,8 @@ def run(ctx):
     _min_point(rc)
     res.assumptions += ["t > 0; thresholds finite", "S_k denotes the fixed-size refinement sequence of C05 (the alignment G1 makes the two loops generate the same sequence)"]
     res.not_decided += ["equality with an independently computed S_k on concrete curves (behavioural)"]
+    from .common import hidden_state as _hidden_state
+    _hidden_state(rc, "G6", ['rdp.grdp', 'rdp.mp_grdp', 'rdp.min_point_rdp'], "global RDP")
     res.require_instances("C06 obligations", len(res.obligations), 13)
 
 
@@ -356,6 +358,8 @@ def _min_point(rc: RuleCtx):
             if S_ and b__.hi.equals(ev.length_of(S_[0])):
                 benv__ = dict(env)
                 benv__.update(b__.bindings)
+                from .common import carry as _carry
+                _carry(ev, loop, env, benv__)
                 o__ = ev.eval_loop_body(fi, loop, benv__)
                 if any(isinstance(v_, Rat) and v_.equals(anf.opaque("at", S_[0], b__.idx, array=False)) for v_ in list(o__.env.values()) + list(b__.bindings.values())):
                     desc = it_ok = True
